@@ -674,13 +674,24 @@ impl Analyzable for RecordConstructorField {
 
 impl Analyzable for VariantCaseConstructor {
     fn analyze(&mut self, parent: Option<Rc<Scope>>) -> AnalyzeReport {
+        // the case is one of the cases of the constructor's type (the scope handed down by the
+        // struct constructor holds them), not whatever an enclosing scope knows under that name
         let name = if self.name.symbol.is_some() {
             AnalyzeReport::default()
         } else {
-            self.name.analyze(parent.clone())
+            match parent.as_ref().and_then(|x| x.symbols.get(&self.name.value)) {
+                Some(symbol) => {
+                    self.name.symbol = Some(symbol.clone());
+                    AnalyzeReport::default()
+                }
+                None => Error::not_in_scope(self.name.value.clone(), &self.name).into(),
+            }
         };
 
-        let mut scope = Scope::new(parent.clone());
+        // field values and the spread are expressions of the scope the constructor sits in
+        let outer = parent.and_then(|x| x.parent.clone());
+
+        let mut scope = Scope::new(outer.clone());
 
         let case = match &self.name.symbol {
             Some(Symbol::VariantCase(x)) => x,
@@ -708,7 +719,7 @@ impl Analyzable for VariantCaseConstructor {
 
         let fields = self.fields.analyze(self.scope.clone());
 
-        let spread = self.spread.analyze(parent);
+        let spread = self.spread.analyze(outer);
 
         name + fields + spread + missing
     }
